@@ -172,7 +172,7 @@ Proof.
   { apply (frame_mq fp_melt_quote); [apply only_request_melt_quote|intros c Hc; destruct c; cbn in *; congruence]. }
   unfold request_melt_quote. destruct u; cbn [negb]; [|left; reflexivity].
   destruct d; cbn [negb]; [|left; reflexivity].
-  destruct (msat =? 0); [left; reflexivity|].
+  destruct ((msat <=? 0) || (two63 <=? msat)); [left; reflexivity|].
   destruct w as [db l m a n]. sx.
   set (internal := match same_invoice (ROk (find (fun q => mq_hash q =? h) (d_mq db))) req with Some _ => true | None => false end).
   assert (Hint : (exists m0, In m0 (d_mq db) /\ mq_hash m0 = h /\ h = req) -> internal = true).
